@@ -9,12 +9,19 @@ freshly compiled C functions and with the independent Python oracle.
   map   <ff|ffxi|fxif|fxifxi|fxixifxixi> <i> <j> <c0> <c1> <8 flags>
   basis <d> <i>            -> coefficients (ascending) of the d-th derivative of the i-th exact function
   gauss <n>                -> `n` binary64-rounded points then `n` weights (exact rationals)
+  want  <func|full|sub|map> <d1> <d2> <i> <j>
+                           -> `ok <den> <key>:<int> …` the wanted exact term list of the checkers (func: d = d1, index i)
+  trapzquad <nx>           -> `xis[0] weights[0] xis[1] weights[1] …` of the model of trapz_quad
+  trapz2d <xmin> <xmax> <nx> <ymin> <ymax> <ny>   -> `x y alpha beta` for every point of the model, in order
+  simps2d <xmin> <xmax> <nx> <ymin> <ymax> <ny>   -> same for simps2d_points
 reply: `ok <rationals…>` or `err <why>`
 -/
 import Mathlib.Algebra.Field.Rat
 import CompmechVerif.Core.CExprSem
 import CompmechVerif.Bardell.Basis
 import CompmechVerif.Bardell.Gauss
+import CompmechVerif.Bardell.Check
+import CompmechVerif.Model.Integrate
 import CompmechVerif.Drv.Proto
 import CompmechVerif.Gen.CTables.Func
 import CompmechVerif.Gen.CTables.FullFf
@@ -117,6 +124,21 @@ def handle (op : String) (rest : String) : String :=
       let p := dbasis d i
       "ok " ++ showQs (p.num.map fun c => qOfInt c p.den)
     | _, _ => "err parse"
+  | "want", [kind, d1, d2, i, j] =>
+    match d1.toNat?, d2.toNat?, i.toNat?, j.toNat? with
+    | some d1, some d2, some i, some j =>
+      let p := dbasis d1 i
+      let q := dbasis d2 j
+      let den := p.den * q.den * intL
+      let out := fun (t : Terms) (den : Nat) =>
+        "ok " ++ toString den ++ " " ++ " ".intercalate (t.map fun x => toString x.1 ++ ":" ++ toString x.2)
+      match kind with
+      | "func" => out (funcWant d1 i).1 (funcWant d1 i).2
+      | "full" => out (fullWant (flagKey2 i j) p.num q.num) den
+      | "sub" => out (subWant (flagKey2 i j) (toTerms p.num) (toTerms q.num)) den
+      | "map" => out (mapWant (flagKey2 i j) (mus p.num) q.num) den
+      | _ => "err kind"
+    | _, _, _, _ => "err parse"
   | "gauss", [n] =>
     match n.toNat? with
     | some n =>
@@ -126,6 +148,21 @@ def handle (op : String) (rest : String) : String :=
         "ok " ++ showQs ((roundAll t.2.1).map f ++ (roundAll t.2.2).map f)
       | none => "err no-such-order"
     | none => "err parse"
+  | "trapzquad", [n] =>
+    match n.toNat? with
+    | some n => "ok " ++ showQs ((Compmech.Integrate.trapzQuad (K := ℚ) n).flatMap fun p => [p.1, p.2])
+    | none => "err parse"
+  | kind, [xmin, xmax, nx, ymin, ymax, ny] =>
+    match parseQ? xmin, parseQ? xmax, nx.toNat?, parseQ? ymin, parseQ? ymax, ny.toNat? with
+    | some xmin, some xmax, some nx, some ymin, some ymax, some ny =>
+      let pts : Option (List (Compmech.Integrate.Pt ℚ)) :=
+        if kind = "trapz2d" then some (Compmech.Integrate.trapz2dPoints xmin xmax nx ymin ymax ny)
+        else if kind = "simps2d" then some (Compmech.Integrate.simps2dPoints xmin xmax nx ymin ymax ny)
+        else none
+      match pts with
+      | some pts => "ok " ++ showQs (pts.flatMap fun p => [p.x, p.y, p.alpha, p.beta])
+      | none => "err unknown-op"
+    | _, _, _, _, _, _ => "err parse"
   | _, _ => "err unknown-op"
 
 end Compmech.Drv.C10
